@@ -18,6 +18,7 @@ macro_rules! dispatch {
             "drive" => $f::<engines::drive::Drive>($($args),*),
             "reverse" => $f::<engines::reverse::Reverse>($($args),*),
             "limits" => $f::<engines::limits::Limits>($($args),*),
+            "reject" => $f::<engines::reject::Reject>($($args),*),
             other => {
                 eprintln!("unknown engine {}", other);
                 std::process::exit(2);
@@ -26,7 +27,7 @@ macro_rules! dispatch {
     };
 }
 
-const ENGINES: &[&str] = &["drive", "reverse", "limits"];
+const ENGINES: &[&str] = &["drive", "reverse", "limits", "reject"];
 
 fn info_of<E: Engine>() -> EngineInfo {
     EngineInfo { name: E::NAME, prop: E::PROP, rule: E::RULE, real: E::REAL, stub: E::STUB }
@@ -41,6 +42,7 @@ fn plan_for(prop: &str, tier: Tier) -> Vec<(&'static str, u64)> {
     let q = tier == Tier::Quick;
     match prop {
         "C15" => vec![("drive", if q { 200_000 } else { 10_000_000 })],
+        "C10" => vec![("reject", if q { 60_000 } else { 60_000 })],
         "C14" => vec![("limits", if q { 20_000 } else { 400_000 })],
         "C02" => vec![("reverse", if q { 40_000 } else { 4_000_000 })],
         _ => vec![],
@@ -48,10 +50,9 @@ fn plan_for(prop: &str, tier: Tier) -> Vec<(&'static str, u64)> {
 }
 
 fn level_for(prop: &str, tier: Tier) -> &'static str {
-    match (prop, tier) {
-        ("C10", Tier::Thorough) | ("C14", Tier::Thorough) => "fault_enumeration",
-        _ => "exploration",
-    }
+    // the manifest claims one category per property; the enumeration tiers are described in the coverage keys
+    let _ = (prop, tier);
+    "exploration"
 }
 
 struct Args {
